@@ -17,8 +17,9 @@ from irlib import AnalysisBroken, tyname
 
 
 class StructSpec:
-    def __init__(self, name, inv=(), owns=None, post_inv=None, nullable=()):
+    def __init__(self, name, inv=(), owns=None, post_inv=None, nullable=(), fixed=None):
         self.nullable = tuple(nullable)
+        self.fixed = fixed or {}        # field -> constant (instantiates a configuration parameter)
         self.name = name                # LLVM struct name, e.g. 'struct.sline'
         self.inv = list(inv)            # constraints over field names
         self.owns = owns or {}          # pointer field -> byte-extent expression
@@ -181,7 +182,12 @@ class ContractRun:
         ptr_fields = []
         for m in members:
             fty = m['ty']
-            if fty['k'] == 'int' and fty['bits'] > 1:
+            if fty['k'] == 'int' and fty['bits'] > 1 and spec is not None and m['name'] in spec.fixed:
+                from absval import mk_const
+                x = mk_const(fty['bits'], spec.fixed[m['name']])
+                st.mem[(o.id, m['off'], fty['size'])] = x
+                fieldsyms[m['name']] = x.s if m.get('signed') == 1 else x.u
+            elif fty['k'] == 'int' and fty['bits'] > 1:
                 signed = m.get('signed') == 1
                 x = st.fresh_int(fty['bits'], signed, '%s.%s' % (pname, m['name']))
                 st.mem[(o.id, m['off'], fty['size'])] = x
